@@ -23,6 +23,9 @@ def run(c, facts, tier):
         "lossy arithmetic (wrapping_/saturating_/…) is forbidden; numbers reach the emitted text through plain `{}`/to_string()."
     )
     c.decided = ["decimal, range-checked conversion", "value carried unchanged into tree and text", "count × unit exact or rejected (given the arithmetic rule)", "out-of-range never appears as a different number"]
+    from .. import report as _rep
+
+    _rep.require(c, facts, "c13", "C07.convert", "-threads", "the thread count read reaches the returned options and the scan call", lambda o: o["rule"] in ("C13.leading", "C13.misplaced", "C13.last-wins", "C13.threads", "C13.total") and "-threads" not in o["instance"], "how the parsed thread count is carried into the options object and the emitted text is decided by the C13 rules")
     # ---------------------------------------------------------------- C07.convert
     n = 0
     for key, fn in sorted(facts.fns.items()):
